@@ -29,6 +29,7 @@ Errors: an unknown style name and a style tuple whose length is not 4 or 6 must 
 """
 from __future__ import annotations
 
+import io
 import itertools
 import random
 import signal
@@ -48,6 +49,7 @@ C_REND = "ensures each line ends with the node's rendering"
 C_PREFIX = "ensures each line == connector prefix (ancestors' last-sibling segments + own connector) + rendering"
 C_LIST = "ensures the list style emits the renderings only"
 C_JOIN = "ensures format(join=j) == j.join(format_iter())"
+C_PRINT = "ensures Tree.print(join=j, file=f) writes format(join=j) followed by one newline"
 C_DEC_PARSE = "ensures every prefix is a sequence of style segments"
 C_DEC_DEPTH = "ensures the prefixes alone determine each node's depth (rebuilds the real parent vector)"
 C_DEC_FLAGS = "ensures the prefixes alone determine the last-sibling flags of the ancestors and of the node"
@@ -343,6 +345,13 @@ def check_one(info: Info, typed, start, style_name, title, add_self, repr_kind, 
                     break
     if got_text != join.join(got_lines):
         out.append((C_JOIN, f"format(join={join!r}) = {got_text!r}, format_iter() = {got_lines}"))
+    if start == -1:  # Tree.print: the documented shortcut for print(tree.format(...))
+        buf = io.StringIO()
+        _r, err = _guarded(lambda: obj.print(join=join, file=buf, **kw))
+        if err is not None:
+            out.append((C_PRINT, f"print(): {err[1]}"))
+        elif buf.getvalue() != got_text + "\n":
+            out.append((C_PRINT, f"print(join={join!r}) wrote {buf.getvalue()!r}, format() = {got_text!r}"))
     if decode and style_name != "list" and len(got_lines) == len(exp):
         body = got_lines[len(title_lines):]
         if all(g.endswith(r) for g, (_i, _l, _p, r) in zip(body, rows)):
